@@ -133,6 +133,7 @@ type exporter struct {
 	globs   []*ir.Global
 	rtTypes []types.Type // MakeInterface operand types (runtime types)
 	rtSeen  map[string]bool
+	chans   bool // C15 only: channels used by a single goroutine (buffered send / receive / close) are inside the fragment
 }
 
 func typeTag(t types.Type) string {
@@ -546,6 +547,10 @@ func (fx *fnExp) call(in *Instr, c *ir.CallCommon) {
 				in.Aux = append(in.Aux, zero(s.Elem()))
 			}
 		case "delete", "recover", "panic", "print", "println", "ssa:deferstack", "ssa:wrapnilchk":
+		case "close":
+			if !fx.ex.chans {
+				fx.bad("builtin " + name)
+			}
 		default:
 			fx.bad("builtin " + name)
 		}
@@ -610,7 +615,7 @@ func (fx *fnExp) instr(ins ir.Instruction) Instr {
 		}
 		switch i.Op {
 		case token.EQL, token.NEQ:
-			if cls == "float" || cls == "tparam" || cls == "unsafe" || cls == "chan" {
+			if cls == "float" || cls == "tparam" || cls == "unsafe" || (cls == "chan" && !fx.ex.chans) {
 				fx.bad("comparison of " + cls)
 			}
 		case token.SHL, token.SHR:
@@ -700,7 +705,11 @@ func (fx *fnExp) instr(ins ir.Instruction) Instr {
 		in.Op = "makemap"
 	case *ir.MakeChan:
 		in.Op = "makechan"
-		fx.bad("channel")
+		if fx.ex.chans {
+			args(i.Size)
+		} else {
+			fx.bad("channel")
+		}
 	case *ir.MakeSlice:
 		in.Op = "makeslice"
 		args(i.Len, i.Cap)
@@ -848,10 +857,22 @@ func (fx *fnExp) instr(ins ir.Instruction) Instr {
 		fx.bad("select")
 	case *ir.Send:
 		in.Op = "send"
-		fx.bad("channel")
+		if fx.ex.chans {
+			args(i.Chan, i.X)
+		} else {
+			fx.bad("channel")
+		}
 	case *ir.Recv:
 		in.Op = "recv"
-		fx.bad("channel")
+		if fx.ex.chans {
+			args(i.Chan)
+			if i.CommaOk {
+				in.N = 1
+			}
+			aux(types.Unalias(i.Chan.Type()).Underlying().(*types.Chan).Elem())
+		} else {
+			fx.bad("channel")
+		}
 	default:
 		in.Op = fmt.Sprintf("%T", ins)
 		fx.bad("instruction " + in.Op)
